@@ -5,6 +5,7 @@ import Mimium.Proofs.FfiTrunc
 import Mimium.Proofs.FfiSound
 import Mimium.Proofs.FfiTypeSound
 import Mimium.Proofs.FfiValueSerdeSound
+import Mimium.Proofs.FfiInjTypeValue
 /-!
 # C20 — Values and types survive the plugin FFI encoding
 
@@ -437,6 +438,50 @@ theorem C20_dvalue_fuel_irrelevant (f : Nat) (bs : Bytes) :
 /-- `Deserialize for Value` maps an index to a variant only if `Serialize for Value` writes that index for it -/
 theorem C20_value_tags_sound (t : UInt32) (c : ValCtor) (h : ValCtor.ofTag t = some c) : c.serTag = some t :=
   ValCtor.serTag_of_ofTag h
+
+/-! ## uniqueness of the value on the wire (no assumption on keys) -/
+
+/-- the `FfiValue` encoder is injective and prefix-free on ALL representable values, valid keys or not -/
+theorem C20_encode_injective_raw (v w : FfiValue) (x y : Bytes) (hv : v.Rep) (hw : w.Rep)
+    (h : encode v ++ x = encode w ++ y) : v = w ∧ x = y := encode_cancel v w x y hv hw h
+
+/-- hence the wire value `w` of `C20_decode_sound` is unique: an accepted input has exactly one reading -/
+theorem C20_decode_sound_unique (f : Nat) (bs rest : Bytes) (v : FfiValue) (h : decode f bs = some (v, rest)) :
+    ∃ w : FfiValue, (w.Rep ∧ bs = encode w ++ rest ∧ v = w.norm) ∧
+      ∀ w' : FfiValue, w'.Rep → bs = encode w' ++ rest → w' = w := by
+  obtain ⟨w, hw, rfl, rfl⟩ := decode_sound h
+  exact ⟨w, ⟨hw, rfl, rfl⟩, fun w' hw' e => (encode_cancel w' w rest rest hw' hw e.symm).1⟩
+
+theorem C20_type_encode_injective_raw (t u : Ty) (a b x y : Bytes) (ht : t.Rep) (hu : u.Rep)
+    (ha : encodeTy t = some a) (hb : encodeTy u = some b) (h : a ++ x = b ++ y) : t = u ∧ x = y :=
+  encodeTy_cancel t u a b x y ht hu ha hb h
+
+theorem C20_type_decode_sound_unique (bs rest : Bytes) (t : Ty) (h : decodeTy bs = some (t, rest)) :
+    ∃ t0 : Ty, (t0.Rep ∧ (∃ enc, encodeTy t0 = some enc ∧ bs = enc ++ rest) ∧ t = t0.norm) ∧
+      ∀ t' : Ty, t'.Rep → (∃ enc, encodeTy t' = some enc ∧ bs = enc ++ rest) → t' = t0 := by
+  obtain ⟨t0, enc, hr, he, rfl, rfl⟩ := decodeTy_sound h
+  refine ⟨t0, ⟨hr, ⟨enc, he, rfl⟩, rfl⟩, ?_⟩
+  rintro t' hr' ⟨enc', he', e⟩
+  exact (encodeTy_cancel t' t0 enc' enc rest rest hr' hr he' he e.symm).1
+
+theorem C20_dvalue_encode_injective_raw (v w : RawValue) (a b x y : Bytes) (hv : v.RepV) (hw : w.RepV)
+    (ha : encodeVal v = some a) (hb : encodeVal w = some b) (h : a ++ x = b ++ y) : v = w ∧ x = y := by
+  unfold encodeVal at ha hb
+  split at ha
+  · split at hb
+    · cases ha; cases hb
+      exact encodeValRaw_cancel v w x y (by assumption) (by assumption) hv hw h
+    · cases hb
+  · cases ha
+
+theorem C20_dvalue_decode_sound_unique (f : Nat) (bs rest : Bytes) (v : RawValue)
+    (h : decodeVal f bs = some (v, rest)) :
+    ∃ w : RawValue, (w.RepV ∧ (∃ enc, encodeVal w = some enc ∧ bs = enc ++ rest) ∧ v = w.normKeys) ∧
+      ∀ w' : RawValue, w'.RepV → (∃ enc, encodeVal w' = some enc ∧ bs = enc ++ rest) → w' = w := by
+  obtain ⟨w, enc, hr, he, rfl, rfl⟩ := C20_dvalue_decode_sound f bs rest v h
+  refine ⟨w, ⟨hr, ⟨enc, he, rfl⟩, rfl⟩, ?_⟩
+  rintro w' hr' ⟨enc', he', e⟩
+  exact (C20_dvalue_encode_injective_raw w' w enc' enc rest rest hr' hr he' he e.symm).1
 
 /-! ## non-vacuity of the soundness theorems: non-canonical inputs that ARE accepted (even key versions), and the
 canonical forms they come back as -/
